@@ -235,7 +235,12 @@ def r2_fields(ctx: Ctx) -> None:
     ctx.check(bool(path_ok) and mode == "rb", "IncludeIpsNode.__init__:open", f"opens the file named by the directive in binary mode; found `{unparse(opens[0])[:50]}`")
     # magic
     magic = [s for s in walk_no_nested(fn.node) if isinstance(s, ast.If) and "b'PATCH'" in unparse(s.test)]
-    ok = len(magic) == 1 and always_raises(magic[0].body) and unparse(magic[0].test).endswith(".read(5) != b'PATCH'")
+    from ..match import canon_test as _ct13
+
+    ok = False
+    if len(magic) == 1 and always_raises(magic[0].body):
+        t_, pol_ = _ct13(magic[0].test)
+        ok = t_.endswith(".read(5) == b'PATCH'") and pol_ is False  # raises exactly when the first five bytes differ from the magic
     ctx.check(ok, "IncludeIpsNode.__init__:magic", "the first five bytes must be PATCH, else the file is rejected")
     env = _loop_env(lp)
     kind, hdr = _sentinel(lp, env)
@@ -302,6 +307,11 @@ def r3_delta_and_order(ctx: Ctx) -> None:
     ctx.check(ok, "IncludeIpsNode.__init__:delta", "delta is the directive's expression evaluated once (0 when absent)")
     augs = [n for n in walk_no_nested(lp) if isinstance(n, ast.AugAssign)]
     ok = len(augs) == 1 and isinstance(augs[0].op, ast.Add) and unparse(augs[0].value) == "self.delta"
+    if ok:
+        gd = CFG(fn.node)
+        conds = gd.path_conditions(gd.node_of(augs[0]))
+        wrong = [(t, p_) for t, p_ in conds if "delta" in t and ((t.endswith("self.delta is None") and p_) or (t == "self.delta" and not p_))]
+        ctx.check(not wrong, "IncludeIpsNode.__init__:offset+delta:guard", f"the shift is applied whenever a delta exists (the guard must not be inverted); conditions {sorted(c for c in conds if 'delta' in c[0])}")
     ctx.check(ok, "IncludeIpsNode.__init__:offset+delta", f"each offset is shifted by +delta exactly once; found {[unparse(a) for a in augs]}")
     apps = [c for c in calls_in(lp) if call_name(c) == "self.blocks.append"]
     ok = len(apps) == 1 and augs and unparse(apps[0].args[0]) == f"({unparse(augs[0].target)}, block)" and apps[0] in [s.value for s in lp.body if isinstance(s, ast.Expr)]
